@@ -9,7 +9,8 @@ import replaylib
 
 INC = [os.path.join(core.REPO, "include", "SQuIDS"), os.path.join(core.VERIF, "spec")]
 JOBS = {"GetExpectationValueD": "SQuIDS::GetExpectationValueD(op,irho,x,buffer)", "GetExpectationValue": "SQuIDS::GetExpectationValue(op,irho,ix)",
-        "GetIntermediateState": "SQuIDS::GetIntermediateState"}
+        "GetIntermediateState": "SQuIDS::GetIntermediateState",
+        "GetExpectationValueD_avg": "SQuIDS::GetExpectationValueD(op,irho,x,buffer,scale,avr)", "GetExpectationValue_avg": "SQuIDS::GetExpectationValue(op,irho,ix,scale,avr)"}
 
 
 def run(rep, tier):
@@ -21,8 +22,8 @@ def run(rep, tier):
     rep.assume("std::lower_bound on a sorted range returns the first index whose value is not less than x (libstdc++); grid strictly increasing, no NaN")
     rep.assume("the SU_vector operations are represented by their contracts: scalar*vector fused assignment (C09/C01), Evolve(H0,tau) = conjugation by exp(i H0 tau) (C03), scalar product = Tr(AB) (C02); "
                "Tr(rho e^{iH0 tau} O e^{-iH0 tau}) = Tr(e^{-iH0 tau} rho e^{iH0 tau} O) by cyclicity of the trace (spec lemma)")
-    rep.assume("the grid length is BOUNDED (nx<=%d) because the bracketing index is found by scanning the ghost log; the thread_local-buffer overloads and the averaging overloads "
-               "(scale, avr) are thin wrappers not under contract here" % nxg)
+    rep.assume("the grid length is BOUNDED (nx<=%d) because the bracketing index is found by scanning the ghost log; the thread_local-buffer overloads (which only supply the buffer) "
+               "are not under contract here; what PrepareEvolve(buffer,tau,scale,avr) computes is C11" % nxg)
     rep.trust("CBMC 6.11, fp2real + z3/cvc5 for the weight formula")
     D = ["NXB=%d" % nxg, "NRB=2", "NSB=1", "NXG=%d" % nxg]
     jobs = [l1.Job(n, ct, "h_" + n, includes=INC, defines=D, unwind=nxg + 2, complete=False, bound_text="nx<=%d" % nxg, timeout=600, slice_formula=True,
